@@ -4,6 +4,7 @@ import (
 	"fmt"
 	"go/token"
 	"go/types"
+	"sort"
 	"strings"
 
 	"golang.org/x/tools/go/ssa"
@@ -296,6 +297,8 @@ func runC05(r *Run) {
 
 	// --- effect rows for the window check (shared with C03)
 	r.checkEffectTable(P, true)
+	// --- the parser decides on the window at intake only
+	r.checkWindowIntakeOnly(P)
 }
 
 // checkWindowTest evaluates the window test W(from, until, anchor).
@@ -385,4 +388,115 @@ func (r *Run) checkWindowTest(P string, w *ssa.Function, iFrom, iUntil, iAnchor 
 func isNilConstV(v ssa.Value) bool {
 	c, ok := v.(*ssa.Const)
 	return ok && c.Value == nil
+}
+
+// checkWindowIntakeOnly: in the operation parser a value read from
+// signedData.AnchorFrom / AnchorUntil may influence a decision (comparison,
+// arithmetic, argument of a non-logging call) only at intake, i.e. under the
+// false edge of the parser's batch flag — in the function that reads it or at
+// every call site leading to it. Anchored operations are parsed in batch mode
+// and by the applier: a window test there turns "consumes its commitment but
+// leaves the document unchanged" into "is skipped".
+func (r *Run) checkWindowIntakeOnly(P string) {
+	fields := map[*types.Var]string{}
+	for _, tn := range []string{"UpdateSignedDataModel", "RecoverSignedDataModel", "DeactivateSignedDataModel"} {
+		n := r.P.Named(pkgModel, tn)
+		if n == nil {
+			r.R.Unk(P+".window.intake.only", "anchor", "model."+tn, "-", "-", "type not found")
+			return
+		}
+		st, _ := n.Underlying().(*types.Struct)
+		for i := 0; st != nil && i < st.NumFields(); i++ {
+			if nm := st.Field(i).Name(); nm == "AnchorFrom" || nm == "AnchorUntil" {
+				fields[st.Field(i)] = tn + "." + nm
+			}
+		}
+	}
+	// the batch flag: the bool parameter of Parser.ParseOperation
+	flag := "batch"
+	if po := r.fn(P, pkgParser, "Parser.ParseOperation"); po != nil {
+		for _, p := range po.Params {
+			if types.Identical(p.Type().Underlying(), types.Typ[types.Bool]) {
+				flag = p.Name()
+			}
+		}
+	}
+	sinks, _ := r.fieldSinks(fields)
+	type seedInfo struct {
+		fn    *ssa.Function
+		ins   ssa.Instruction
+		sinks []string
+	}
+	seeds := map[ssa.Instruction]*seedInfo{}
+	for _, ss := range sinks {
+		for _, s := range ss {
+			sf := s.Seed.Parent()
+			if sf == nil || sf.Pkg == nil || core.Rel(sf.Pkg.Pkg.Path()) != pkgParser {
+				continue
+			}
+			switch s.Kind {
+			case "message", "return":
+				continue
+			}
+			si := seeds[s.Seed]
+			if si == nil {
+				si = &seedInfo{fn: sf, ins: s.Seed}
+				seeds[s.Seed] = si
+			}
+			si.sinks = append(si.sinks, s.String())
+		}
+	}
+	r.R.Floor(P+".window.intake.only.floor", "instance floor", len(seeds), 6, "deciding reads of the window fields in the parser")
+	perFn := map[string][]string{}
+	okFn := map[string]bool{}
+	where := map[string]string{}
+	for _, si := range seeds {
+		name := core.FuncName(si.fn)
+		if _, seen := okFn[name]; !seen {
+			okFn[name] = true
+			where[name] = r.where(si.fn)
+		}
+		if ok, det := r.underFalseFlag(si.fn, si.ins, flag, 3); !ok {
+			okFn[name] = false
+			perFn[name] = append(perFn[name], r.P.Pos(si.ins.Pos())+": "+det+"; flows to "+short(strings.Join(dedupe(si.sinks), " | "), 300))
+		}
+	}
+	var names []string
+	for n := range okFn {
+		names = append(names, n)
+	}
+	sort.Strings(names)
+	for _, n := range names {
+		sort.Strings(perFn[n])
+		r.R.Check(okFn[n], P+".window.intake.only."+n, "E3 + E8 never-before: a window field read in the parser reaches a decision only under the false edge of the batch flag (in the reader or at every call site leading to it)", n, where[n],
+			"anchored operations are parsed in batch mode and by the applier; a window decision there rejects an out-of-window update/recover instead of letting it consume its commitment",
+			"intake only", strings.Join(perFn[n], "; "))
+	}
+}
+
+// underFalseFlag: at ins the must-facts contain false($flag) for f's bool
+// parameter named flag, or every static call site of f (depth-limited) does.
+func (r *Run) underFalseFlag(f *ssa.Function, ins ssa.Instruction, flag string, depth int) (bool, string) {
+	ff := r.E.Facts(f, core.Ctx{})
+	for _, p := range f.Params {
+		if p.Name() == flag && types.Identical(p.Type().Underlying(), types.Typ[types.Bool]) {
+			if core.HasFact(ff.At(ins), "false($"+flag+")") {
+				return true, ""
+			}
+			return false, "read in " + core.FuncName(f) + " not under !" + flag
+		}
+	}
+	if depth <= 0 {
+		return false, "call chain too deep above " + core.FuncName(f)
+	}
+	callers := r.callersOf(f)
+	if len(callers) == 0 {
+		return false, core.FuncName(f) + " has no batch flag and no callers in the module (reachable in every mode)"
+	}
+	for _, c := range callers {
+		if ok, det := r.underFalseFlag(c.Parent(), c, flag, depth-1); !ok {
+			return false, "via " + core.FuncName(f) + " ← " + det
+		}
+	}
+	return true, ""
 }
